@@ -201,6 +201,10 @@ class BaseInterpolatableCompiler(BaseCompiler):
         ):
             if default_idx is not None:
                 self.compilingVFDefaultSource = i == default_idx
+            else:
+                # a plain list of sources, no designspace: a source that is a
+                # (sparse) layer is never the default one
+                self.compilingVFDefaultSource = layerName is None
             yield self.compile_one(ufo, glyphSet, layerName)
 
     def compile_one(self, ufo, glyphSet, layerName):
